@@ -21,7 +21,7 @@ RULE = (
     "public state compared with the model and the representative send set re-observed. "
     "'reactive': endpoints that send from inside a delivery (definition in answer to getProperties, enableBLOB in answer to "
     "the definition, a chain of relayed notices 2-4 deep): the policy must be in force for the next message and every notice is "
-    "delivered exactly once. 'history': Hypothesis histories (<= 40 ops, <= 6 clients) of register/unregister/enableBLOB/device-send. Non-trivial: a send "
+    "delivered exactly once. 'related-names': two devices whose names are related as strings (dotted / separated prefix, property name, case or blank variant, glob pattern) x every enableBLOB sequence of length <= 3: policies stay per device. 'history': Hypothesis histories (<= 40 ops, <= 6 clients) of register/unregister/enableBLOB/device-send. Non-trivial: a send "
     "observed while >= 2 registered clients hold different policies for the message's device, or a policy for another "
     "device/client is present (independence). Exhaustive sends are distinct by construction; histories by canonical JSON."
 )
@@ -197,6 +197,76 @@ def check_reactive(case):
     return Info(nontrivial=True, labels=[f"depth={case['depth']}", case["policy"]])
 
 
+RELATED_NAMES = [
+    ("Cam", "Cam.IMG"), ("Cam", "Cam.Guide"), ("Cam", "Camera"), ("Cam", "cam"), ("Cam", "Cam "), ("Cam", "Cam/IMG"), ("Cam", "Cam:IMG"),
+    ("Cam", "Cam IMG"), ("IMG", "Cam"), ("Cam", "Cam*"), ("Cam", "Ca?"), ("Cam[1]", "Cam1"), ("Cam", "Cam\u00e9"),
+]
+
+
+def check_related_names(case):
+    """Two devices whose names are related as strings (one a dotted / separated prefix of the other, a property name of the
+    other, a case or blank variant, a glob pattern covering the other): policies stay per device.
+    case: {"names": [a, b], "ops": [[dev index, policy], ...]}"""
+    from indi import message as M
+    from indi.routing import Client, Device, Router
+
+    names = case["names"]
+    router = Router()
+    got = {"c": [], "bystander": []}
+
+    class Obs(Client):
+        def __init__(self, key):
+            self.key = key
+
+        def message_from_device(self, m):
+            got[self.key].append((m.__class__.tag_name(), m.device))
+
+    class Dev(Device):
+        def __init__(self, name):
+            self.name_ = name
+
+        def accepts(self, device):
+            return device in (None, self.name_)
+
+        def message_from_client(self, m):
+            pass
+
+    devs = [Dev(n) for n in names]
+    for d in devs:
+        router.register_device(d)
+    c, by = Obs("c"), Obs("bystander")
+    router.register_client(c)
+    router.register_client(by)
+    pol = {}
+    for di, p in case["ops"]:
+        router.process_message(M.EnableBLOB(device="".join(list(names[di])), value="".join(list(p))), sender=c)
+        pol[names[di]] = p
+    for d in devs:
+        router.process_message(M.SetBLOBVector(device=d.name_, name="IMG", state="Ok", children=()), sender=d)
+        router.process_message(M.SetTextVector(device=d.name_, name="IMG", state="Ok", children=()), sender=d)
+    want = []
+    for n in names:
+        p = pol.get(n, "Never")
+        if p in ("Also", "Only"):
+            want.append(("setBLOBVector", n))
+        if p != "Only":
+            want.append(("setTextVector", n))
+    if sorted(got["c"]) != sorted(want):
+        raise Failure("related-names:policy-leaks-between-devices-with-related-names", f"{case}: the client received {sorted(got['c'])}, expected {sorted(want)}")
+    want_by = [("setTextVector", n) for n in names]
+    if sorted(got["bystander"]) != sorted(want_by):
+        raise Failure("related-names:bystander-affected", f"{case}: a client that set no policy received {sorted(got['bystander'])}, expected {sorted(want_by)}")
+    return Info(nontrivial=len(case["ops"]) >= 2 and len({d for d, _ in case["ops"]}) == 2, labels=[f"{names[0]}|{names[1]}"])
+
+
+def related_cases():
+    ops1 = [[d, p] for d in (0, 1) for p in ("Never", "Also", "Only")]
+    for names in RELATED_NAMES:
+        for n in (1, 2, 3):
+            for seq in itertools.product(ops1, repeat=n):
+                yield {"names": list(names), "ops": [list(o) for o in seq]}
+
+
 def check_history(case):
     w = routing.World(ndev=case["ndev"], ncli=case["ncli"])
     nt = False
@@ -231,7 +301,7 @@ device_history_ops = st.one_of(
 )
 history = st.fixed_dictionaries({"ndev": st.integers(1, 3), "ncli": st.integers(1, 6), "ops": st.lists(device_history_ops, min_size=2, max_size=40)})
 
-SUBCHECKS = {"states": check_state, "history": check_history, "reactive": check_reactive}
+SUBCHECKS = {"states": check_state, "history": check_history, "reactive": check_reactive, "related-names": check_related_names}
 
 
 def states(n):
@@ -245,3 +315,5 @@ def run(ctx):
     ctx.exhaustive["states"] = {"complete": True, "n_states": cnt, "bound": f"{n} clients x 2 device names x 4 policy values incl. unset = {17 ** n} abstract states; every device-originated send and every mutating op in each"}
     ctx.hyp("history", history, check_history, ctx.scale(250, 8000))
     ctx.each("reactive", [{"depth": d, "policy": p, "observers": o} for d in (2, 3, 4) for p in ("Also", "Only", "Never") for o in (1, 2)], check_reactive, stop_after=2)
+    cnt = ctx.each("related-names", related_cases(), check_related_names, stop_after=3)
+    ctx.exhaustive["related-names"] = {"complete": True, "n_cases": cnt, "bound": f"{len(RELATED_NAMES)} name pairs x every enableBLOB sequence of length 1..3 over (2 devices x 3 policies)"}
